@@ -27,6 +27,7 @@ func init() {
 	Registry["C14"] = &Check{Level: "model_checking", QuickBudget: 150, ThoroughBudget: 1500, Run: runC14}
 	workers["c14"] = c14Worker
 	workers["c14race"] = c14RaceWorker
+	workers["c14replay"] = c14ReplayWorker
 }
 
 // c14Op is one read-only query issued by one goroutine.
@@ -256,6 +257,7 @@ type c14WorkerOut struct {
 	MaxPoints  int              `json:"max_points"`
 	Truncated  bool             `json:"truncated"`
 	States     int64            `json:"states"`
+	MemChecked int64            `json:"mem_accesses_checked"`
 	Outcomes   map[string]int64 `json:"outcomes"`
 	Builders   map[string]int64 `json:"builders"`
 	Reached    []int64          `json:"reached"`
@@ -392,6 +394,7 @@ func c14Worker(args []string) int {
 	out.States = ex.Stats.StatesSeen
 	out.States = ex.Stats.StatesSeen
 	out.Outcomes = ex.Stats.Outcomes
+	out.MemChecked = vsched.MemAccesses
 	for _, f := range fails {
 		out.Failures = append(out.Failures, *f)
 	}
@@ -400,24 +403,31 @@ func c14Worker(args []string) int {
 	return 0
 }
 
+type c14Job struct {
+	sc      *c14Scenario
+	threads int
+	bound   int
+	shards  int
+}
+
+type c14Res struct {
+	j    c14Job
+	outs []*c14WorkerOut
+	err  string
+}
+
 func runC14(c *core.Ctx) {
 	c.Rule = "every schedule (choice sequence at sync operations, atomic accesses and hooked shared-state accesses) of 2-3 goroutines issuing real read-only queries on fresh shared geometry, explored depth-first up to the stated preemption bound per scenario; non-trivial = executions in which a thread other than the first one performed (part of) the index build or observed the index mid-build"
 	c.Assume = []string{
 		"sequentially consistent interleavings at sync/atomic operations and verifAccess hooks; weak-memory reorderings are represented by the happens-before race check, not explored",
-		"shared state without a hook is covered only by the separate free-running -race pass of the same bodies",
+		"shared memory of package s2 without a hook is covered by the full-memory pass (same exploration, preemption bound 1-3, in a binary whose every access to pointer-reachable or package-level memory of s2 reports to the happens-before check); memory touched only inside other packages (math/big, r3.PreciseVector) and whole-slice operations (copy, append into spare capacity) are covered only by the separate free-running -race pass of the same bodies",
 	}
 	scs := c14Scenarios()
 	if c.OnlySub != "" {
 		c14Replay(c, scs)
 		return
 	}
-	type job struct {
-		sc      *c14Scenario
-		threads int
-		bound   int
-		shards  int
-	}
-	var jobs []job
+	var jobs, memJobs []c14Job
 	for _, s := range scs {
 		if only := os.Getenv("C14_SCENARIO"); only != "" && !strings.HasPrefix(s.Name, only) {
 			continue
@@ -429,26 +439,49 @@ func runC14(c *core.Ctx) {
 			maxB3 = 1
 		}
 		if os.Getenv("C14_UNBOUNDED_ONLY") == "" {
-			jobs = append(jobs, job{s, 2, maxB2, core.Pick(c, 1, 4)})
+			jobs = append(jobs, c14Job{s, 2, maxB2, core.Pick(c, 1, 4)})
 			if len(s.Ops) >= 3 {
-				jobs = append(jobs, job{s, 3, maxB3, core.Pick(c, 4, 16)})
+				jobs = append(jobs, c14Job{s, 3, maxB3, core.Pick(c, 4, 16)})
 			}
 		}
 		// all interleavings, with state caching (bound -1): two threads always, three threads in the
 		// thorough tier
 		// two threads: in both tiers; three threads: thorough tier, with a cap on executions for the
 		// scenarios whose state space is too large (reported as truncated, i.e. not exhaustive)
-		jobs = append(jobs, job{s, 2, -1, 1})
+		jobs = append(jobs, c14Job{s, 2, -1, 1})
+		// full-memory race pass (the happens-before check does not need the two accesses to be
+		// interleaved, so small bounds already expose every race on a path the threads execute)
+		memJobs = append(memJobs, c14Job{s, 2, core.Pick(c, 1, 3), core.Pick(c, 1, 4)})
+		if len(s.Ops) >= 3 {
+			memJobs = append(memJobs, c14Job{s, 3, core.Pick(c, 1, 2), core.Pick(c, 2, 16)})
+		}
 		if len(s.Ops) >= 3 && (!c.Quick() || os.Getenv("C14_UNBOUNDED_ONLY") != "") && os.Getenv("C14_TWO_ONLY") == "" {
-			jobs = append(jobs, job{s, 3, -1, 1})
+			jobs = append(jobs, c14Job{s, 3, -1, 1})
 		}
 	}
-	type res struct {
-		j    job
-		outs []*c14WorkerOut
-		err  string
+	table := c14RunJobs(c, "", jobs)
+	c.Note("scenarios", table)
+	c.Note("states_definition", "states = distinct outcome classes (builder set, race count, deadlock) summed over scenarios; transitions = scheduling points executed; traces = complete executions, all of them on the implementation itself")
+	c14MemPass(c, memJobs)
+	c14FreeRunningRace(c)
+}
+
+// c14MemPass runs the bounded exploration again in the binary whose s2 package is instrumented on
+// every access to memory another goroutine could reach (vinstr -mem): the happens-before race check
+// then covers all of golang/geo's shared memory, not only the hooked index state.
+func c14MemPass(c *core.Ctx, jobs []c14Job) {
+	bin := os.Getenv("VERIF_MEM_BIN")
+	if bin == "" {
+		c.Note("full_memory_race_pass", "skipped: no memory-instrumented binary ("+os.Getenv("VERIF_MEM_SKIPPED")+")")
+		return
 	}
-	results := make([]res, len(jobs))
+	table := c14RunJobs(c, bin, jobs)
+	c.Note("full_memory_race_pass", table)
+}
+
+// c14RunJobs explores every job in worker processes of the given binary ("" = this one) and reports.
+func c14RunJobs(c *core.Ctx, bin string, jobs []c14Job) []map[string]any {
+	results := make([]c14Res, len(jobs))
 	sem := make(chan struct{}, c.Workers)
 	var wg sync.WaitGroup
 	for ji, j := range jobs {
@@ -456,7 +489,7 @@ func runC14(c *core.Ctx) {
 		results[ji].outs = make([]*c14WorkerOut, j.shards)
 		for sh := 0; sh < j.shards; sh++ {
 			wg.Add(1)
-			go func(ji, sh int, j job) {
+			go func(ji, sh int, j c14Job) {
 				defer wg.Done()
 				sem <- struct{}{}
 				defer func() { <-sem }()
@@ -464,7 +497,7 @@ func runC14(c *core.Ctx) {
 				if j.bound < 0 {
 					maxExec = strconv.Itoa(core.Pick(c, 60000, 400000))
 				}
-				so, se, err := runWorkerProc("c14", j.sc.Name, strconv.Itoa(j.threads), strconv.Itoa(j.bound), strconv.Itoa(sh), strconv.Itoa(j.shards), maxExec)
+				so, se, err := runWorkerBin(bin, "c14", j.sc.Name, strconv.Itoa(j.threads), strconv.Itoa(j.bound), strconv.Itoa(sh), strconv.Itoa(j.shards), maxExec)
 				var out *c14WorkerOut
 				scan := bufio.NewScanner(strings.NewReader(so))
 				scan.Buffer(make([]byte, 1<<20), 1<<28)
@@ -490,7 +523,7 @@ func runC14(c *core.Ctx) {
 		if r.err != "" {
 			panic(core.HarnessError(r.err))
 		}
-		var ex, pts, states int64
+		var ex, pts, states, memAcc int64
 		outcomes := map[string]int64{}
 		builders := map[string]int64{}
 		reached := make([]int64, r.j.threads)
@@ -499,6 +532,7 @@ func runC14(c *core.Ctx) {
 			ex += o.Executions
 			pts += o.Points
 			states += o.States
+			memAcc += o.MemChecked
 			if o.MaxPoints > maxPts {
 				maxPts = o.MaxPoints
 			}
@@ -519,7 +553,7 @@ func runC14(c *core.Ctx) {
 				if !f.Stable {
 					panic(core.HarnessError(fmt.Sprintf("schedule %v of %s did not reproduce its finding on replay (nondeterminism not owned): %s", f.Choices, sub, f.Desc)))
 				}
-				c.Violate(r.j.sc.Name, f.Kind, f.Desc, nil, map[string]any{"scenario": r.j.sc.Name, "threads": r.j.threads, "choices": f.Choices, "executions_with_this_failure_in_shard": f.Count, "trace_tail": f.Trace})
+				c.Violate(r.j.sc.Name, f.Kind, f.Desc, nil, map[string]any{"scenario": r.j.sc.Name, "threads": r.j.threads, "choices": f.Choices, "executions_with_this_failure_in_shard": f.Count, "trace_tail": f.Trace, "memory_instrumented": bin != ""})
 			}
 		}
 		// Vacuity: every thread must reach the shared index in some execution, and
@@ -538,6 +572,9 @@ func runC14(c *core.Ctx) {
 		if !r.j.sc.Prebuilt && len(builders) < 2 && r.j.bound != 0 {
 			panic(core.HarnessError(fmt.Sprintf("scenario %s is vacuous: only one builder ever (%v)", r.j.sc.Name, builders)))
 		}
+		if bin != "" && memAcc == 0 {
+			panic(core.HarnessError("full-memory pass is vacuous: no instrumented access was checked in " + r.j.sc.Name))
+		}
 		c.Eval(int(ex))
 		c.Nontrivial(int(nontriv))
 		c.MC(int64(len(outcomes)), pts, ex)
@@ -547,14 +584,12 @@ func runC14(c *core.Ctx) {
 			c.MC(states, 0, 0)
 		}
 		table = append(table, map[string]any{"scenario": r.j.sc.Name, "threads": r.j.threads, "preemption_bound_completed": boundDesc, "distinct_state_choice_pairs": states,
-			"executions": ex, "scheduling_points": pts, "max_points_per_execution": maxPts, "distinct_outcomes": len(outcomes), "builders": builders, "threads_reaching_index": reached})
+			"executions": ex, "memory_accesses_race_checked": memAcc, "scheduling_points": pts, "max_points_per_execution": maxPts, "distinct_outcomes": len(outcomes), "builders": builders, "threads_reaching_index": reached})
 		if len(table) <= 3 {
 			c.Sample(map[string]any{"scenario": r.j.sc.Name, "threads": r.j.threads, "ops": opNames(r.j.sc, r.j.threads), "serial_answers": r.outs[0].Expected, "outcome_classes": outcomes})
 		}
 	}
-	c.Note("scenarios", table)
-	c.Note("states_definition", "states = distinct outcome classes (builder set, race count, deadlock) summed over scenarios; transitions = scheduling points executed; traces = complete executions, all of them on the implementation itself")
-	c14FreeRunningRace(c)
+	return table
 }
 
 func opNames(s *c14Scenario, n int) []string {
@@ -575,6 +610,31 @@ func c14Replay(c *core.Ctx, scs []*c14Scenario) {
 	}
 	name, _ := d["scenario"].(string)
 	threads := int(d["threads"].(float64))
+	if mi, _ := d["memory_instrumented"].(bool); mi && len(vsched.MemSites) == 0 {
+		// found by the full-memory pass: replay in the memory-instrumented binary
+		bin := os.Getenv("VERIF_MEM_BIN")
+		if bin == "" {
+			panic(core.HarnessError("replay needs the memory-instrumented binary (VERIF_MEM_BIN unset)"))
+		}
+		cj, _ := json.Marshal(d["choices"])
+		so, se, err := runWorkerBin(bin, "c14replay", name, strconv.Itoa(threads), string(cj))
+		n := 0
+		for _, l := range strings.Split(so, "\n") {
+			if strings.HasPrefix(l, "C14REPLAY ") {
+				parts := strings.SplitN(l[10:], "|", 2)
+				if len(parts) == 2 {
+					c.Violate(name, parts[0], parts[1], nil, nil)
+					n++
+				}
+			} else if l != "" {
+				fmt.Println(l)
+			}
+		}
+		if err != nil || !strings.Contains(so, "C14REPLAY-DONE") {
+			panic(core.HarnessError(fmt.Sprintf("replay worker failed: %v\n%s", err, tail(se, 3000))))
+		}
+		return
+	}
 	var choices []int
 	for _, x := range d["choices"].([]any) {
 		choices = append(choices, int(x.(float64)))
@@ -607,6 +667,49 @@ func c14Replay(c *core.Ctx, scs []*c14Scenario) {
 		}
 		fmt.Println("replayed 5x with identical observations:", first)
 	}
+}
+
+// c14ReplayWorker: vcheck worker c14replay <scenario> <threads> <choices-json>; re-runs one schedule five
+// times in this binary and prints its findings.
+func c14ReplayWorker(args []string) int {
+	if len(args) < 3 {
+		return 2
+	}
+	installAccessHook()
+	threads, _ := strconv.Atoi(args[1])
+	var choices []int
+	if json.Unmarshal([]byte(args[2]), &choices) != nil {
+		return 2
+	}
+	for _, s := range c14Scenarios() {
+		if s.Name != args[0] {
+			continue
+		}
+		sc, _ := s.buildSched(threads)
+		var first string
+		for k := 0; k < 5; k++ {
+			_, fs := sched.RunOnce(sc, choices, false)
+			var ds []string
+			for _, f := range fs {
+				ds = append(ds, f.Kind+"|"+canonDesc(f.Kind, f.Desc))
+			}
+			sort.Strings(ds)
+			sig := strings.Join(ds, "\n")
+			if k == 0 {
+				first = sig
+				for _, d := range ds {
+					fmt.Println("C14REPLAY " + strings.ReplaceAll(d, "\n", " "))
+				}
+			} else if sig != first {
+				fmt.Println("replay is not deterministic")
+				return 2
+			}
+		}
+		fmt.Println("replayed 5x with identical observations")
+		fmt.Println("C14REPLAY-DONE")
+		return 0
+	}
+	return 2
 }
 
 // ---- free-running pass under the Go race detector ---------------------------
